@@ -215,6 +215,18 @@ func c09Directed() [][]string {
 		{ // what a crashed filesystem-store transaction leaves behind (made by hand)
 			"op mkb b0", p("b0", "k0", "survivor", ""), "leftovers", "quiesce", "checkleftovers",
 		},
+		func() []string { // more aged parts than one sweep batch of the collector (256): orphans that stay
+			// behind 256 and behind 513 live parts sit exactly at the batch boundaries on every pass
+			ls := []string{"op mkb b0"}
+			for i := 0; i < 256; i++ {
+				ls = append(ls, p("b0", fmt.Sprintf("big%03d", i), fmt.Sprintf("live-%03d", i), ""))
+			}
+			ls = append(ls, "orphan 0", "orphan 0", "orphan 1")
+			for i := 256; i < 512; i++ {
+				ls = append(ls, p("b0", fmt.Sprintf("big%03d", i), fmt.Sprintf("live-%03d", i), ""))
+			}
+			return append(ls, "orphan 0", "orphan 0", "quiesce")
+		}(),
 	}
 }
 
